@@ -123,6 +123,17 @@ def make_desc(job):
                 q[k] = 0.5 if not isinstance(q[k], list) else [0.5 for _ in q[k]]
             cands.append({"mutated": k, "how": how, "params": q})
         d["candidates"] = cands
+        # the instance may have been configured differently and used before (HyperTuner re-configures one
+        # instance for every grid point): an earlier configuration d0 and a run with it
+        if r.random() < 0.5:
+            d0, _ = scenario.gen_config(r, opt, engine_g.make_config, cycles=(1, 4), perturb_p=1.0)
+            if r.random() < 0.6:
+                d0["population_size"] = d["config"]["population_size"]
+                try:
+                    engine_g.make_config(opt, d0)
+                except Exception:
+                    d0 = None
+            d["prior_config"] = d0
     return d
 
 
@@ -465,9 +476,13 @@ def run_c18(desc, stats):
                     out.append({"cls": [opt, "accepts_rejected_parameters"],
                                 "msg": f"{cfg_cls.__name__} rejects {cand['mutated']}={q.get(cand['mutated'])!r} "
                                        f"({type(ref_err).__name__}) but set_config_parameters accepted it"})
-                elif not isinstance(got_err, ValueError):
-                    out.append({"cls": [opt, "rejection_not_validation_error"],
-                                "msg": f"set_config_parameters raised {type(got_err).__name__} for rejected parameters"})
+                elif type(got_err) is not type(ref_err):
+                    # the statement equates set_config_parameters(d) with building the config class from d: the
+                    # rejection must be the one the config model itself raises (a pydantic ValidationError for
+                    # out-of-range values; whatever the model's own validators raise for ill-typed ones)
+                    out.append({"cls": [opt, "rejection_differs_from_config_model"],
+                                "msg": f"{cfg_cls.__name__}(**d) raises {type(ref_err).__name__} but "
+                                       f"set_config_parameters(d) raised {type(got_err).__name__}"})
                 elif o.configuration is not before:
                     out.append({"cls": [opt, "config_replaced_on_rejection"],
                                 "msg": "a rejected set_config_parameters call replaced the previous configuration"})
@@ -485,6 +500,10 @@ def run_c18(desc, stats):
         with Session(desc["seed"], sched=desc.get("sched")) as s2:
             oo = cls() if how == "set_config_parameters" else cls(cfg_cls(**copy.deepcopy(d)))
             if how == "set_config_parameters":
+                if desc.get("prior_config"):
+                    oo.set_config_parameters(_plain_params(desc["prior_config"]))
+                    s2.set_ambient("prior")
+                    s2.call(oo, tasks.build_task(desc["task"]), mode="serial", entropy_label="prior")
                 oo.set_config_parameters(copy.deepcopy(d))
             s2.set_ambient("run")
             rr = s2.call(oo, tasks.build_task(desc["task"]), mode=desc.get("mode"), workers=desc.get("workers"),
@@ -501,7 +520,7 @@ def run_c18(desc, stats):
                                                         f"constructor path: {rb.exc_type or 'result'}"})
     elif ra.exc is None:
         diff = first_difference(ra.dump, rb.dump)
-        if diff is not None or da != db:
+        if diff is not None or (da != db and not desc.get("prior_config")):
             out.append({"cls": [opt, "run_differs"],
                         "msg": f"run after set_config_parameters(d) differs from run of {opt}(Config(**d)): "
                                f"{diff or 'event logs differ'}"})
